@@ -663,13 +663,16 @@ func groupWide() {
 	}
 }
 
-// a struct whose fixed-size fields add up to more than 65535 encoded bytes (6100 x i64: 67100): sums kept in
+// a struct whose fixed-size fields add up to more than 65535 encoded bytes (8200 x i64: 90200) and whose
+// Go size exceeds 65535 bytes (65600 + the holder): sums and offsets kept in
 // 16 bits wrap (P4).  Used by the size stream only (group `huge` is not part of the default type list).
 func groupHuge() {
 	s := newStruct("huge")
-	for i := 0; i < 6100; i++ {
+	for i := 0; i < 8200; i++ {
 		s.add(fmt.Sprintf("F%d", i+1), prim("int64"), i+1, "default")
 	}
+	// … and its holder lies beyond byte 65535 of the struct (S3 kept the holder's offset in 16 bits)
+	s.addHolder()
 }
 
 // by-value structs whose only field is a by-value struct that is itself pointer-shaped (stored
@@ -1044,6 +1047,13 @@ func groupInvalid() {
 	raw("X", list(named("uint8", "NB")), `frugal:"2,default,list<byte>"`)
 	raw("X", mapOf(prim("int32"), list(named("uint8", "NB"))), `frugal:"2,default,map<i32:binary>"`)
 	raw("X", list(list(named("uint8", "NB"))), `frugal:"2,default,list<binary>"`)
+	// control bytes are not white space (S1 skipped every byte <= ' '); raw bytes in the tag, not escapes (the
+	// model of StructTag.Lookup does not undo escapes)
+	for _, a := range []string{"\x01i32", "list<\x01i32>", "list<i32\x1f>", "\bi32", "list<\x7fi32>"} {
+		raw("X", list(prim("int32")), `frugal:"2,default,`+a+`"`)
+	}
+	raw("X", prim("int64"), "frugal:\"2,default,i64\x1f\"")
+	raw("X", prim("int64"), "frugal:\"2,default,\x02i64\"")
 	// broken syntax
 	for _, a := range []string{"list<i32", "list i32>", "list<>", "<i32>", "lst<i32>", "list<i32,>", "set<", "list"} {
 		raw("X", list(prim("int32")), `frugal:"2,default,`+a+`"`)
